@@ -15,8 +15,10 @@ W = '//@W'   # tag on every woven line
 PROOF_FAIL = [
     'postcondition not satisfied', 'precondition not satisfied', 'possible arithmetic underflow/overflow',
     'possible division by zero', 'assertion failed', 'invariant not satisfied', 'decreases not satisfied',
-    'possible bit shift underflow/overflow', 'loop invariant', 'assertion not satisfied', 'not satisfied',
-    'possible truncation', 'unreachable', 'index out of bounds', 'might fail', 'failed',
+    'possible bit shift underflow/overflow', 'loop invariant not satisfied', 'could not prove termination',
+    'cannot show invariant', 'unable to prove', 'assertion not satisfied', 'bit_vector assertion',
+    'possible truncation', 'failed precondition', 'failed this postcondition', 'panic',
+    'unreachable', 'possible negative shift', 'checked arithmetic',
 ]
 UNDECIDED = ['rlimit', 'resource limit', 'timed out', 'timeout']
 
@@ -47,9 +49,15 @@ def _tag(lines, label):
 def _apply_rewrites(text, rewrites):
     info = []
     for rw in rewrites or []:
-        pat, repl = rw[0], rw[1]
-        expect = rw[2] if len(rw) > 2 else None
-        text, n = re.subn(pat, repl, text)
+        if rw[0] == 'lit':
+            _, pat, repl = rw[0], rw[1], rw[2]
+            expect = rw[3] if len(rw) > 3 else None
+            n = text.count(pat)
+            text = text.replace(pat, repl)
+        else:
+            pat, repl = rw[0], rw[1]
+            expect = rw[2] if len(rw) > 2 else None
+            text, n = re.subn(pat, repl, text)
         if expect is not None and n != expect:
             raise Infra('rewrite %r expected %s sites, found %d' % (pat, expect, n))
         info.append({'pattern': pat, 'replacement': repl, 'sites': n})
@@ -96,6 +104,15 @@ def weave_fn(src, msk, it, sc):
                 e = expr.rstrip().rstrip(',').split('\n')
                 e[-1] += ','
                 ls += _tag(['                ' + l for l in e], 'loop%d.%s' % (ordinal, label))
+        if clauses.get('invariant_except_break'):
+            ls.append('            invariant_except_break %s:kw' % W)
+            for label, expr in clauses['invariant_except_break']:
+                e = expr.rstrip().rstrip(',').split('\n')
+                e[-1] += ','
+                ls += _tag(['                ' + l for l in e], 'loop%d.%s' % (ordinal, label))
+            # Verus wants invariant_except_break before invariant: move it to the front
+            k = next(i for i, l in enumerate(ls) if 'invariant_except_break' in l)
+            ls = ls[k:] + ls[:k]
         if clauses.get('ensures'):
             ls.append('            ensures %s:kw' % W)
             for label, expr in clauses['ensures']:
@@ -173,6 +190,9 @@ def build_unit(unit):
             cache[path] = (s, rustscan.mask(s))
         src, msk = cache[path]
         it = rustscan.find_item(src, sc['item'], msk)
+        for lit in sc.get('requires_text', []):
+            if canon(lit) not in canon(src):
+                raise Infra('rewrite premise %r no longer present in %s' % (lit, sc['file']))
         name = sc.get('fn') or it.name
         if it.kind == 'fn':
             orig, woven = weave_fn(src, msk, it, sc)
@@ -242,8 +262,10 @@ def classify(msg):
     for u in UNDECIDED:
         if u in m:
             return 'undecided'
+    if 'internal error' in m or 'not supported' in m or 'unsupported' in m:
+        return 'infra'
     for f in PROOF_FAIL:
-        if f in m:
+        if m.startswith(f) or (': ' + f) in m:
             return 'fail'
     return 'infra'
 
